@@ -86,7 +86,20 @@ def fault_list(doc):
         out.append(('unknown-type', n, lambda d, get=get: get(d).__setitem__('type', 'choice')))
         if kind in ('final', 'history'):
             out.append(('transition-on-%s-state' % kind, n, lambda d, get=get, tgt=names[0]: get(d).__setitem__('transitions', [{'target': tgt, 'event': 'ea'}])))
+        if kind in ('final', 'history'):
+            # the same faults on a typed state that also lists substates (which a final / history state cannot have): the
+            # document still declares a final / history state and still breaks the rule
+            sub = {'states': [{'name': 'LEFTX'}]} if i % 2 else {'parallel states': [{'name': 'LEFTX'}, {'name': 'LEFTY'}]}
+            out.append(('transition-on-%s-state-listing-substates' % kind, n, lambda d, get=get, tgt=names[0], sub=sub: (
+                get(d).__setitem__('transitions', [{'target': tgt, 'event': 'ea'}]), get(d).update(copy.deepcopy(sub)))))
+        if kind == 'history':
+            out.append(('memory-self-listing-substates', n, lambda d, get=get, n=n: (
+                get(d).__setitem__('memory', n), get(d).__setitem__('states', [{'name': 'LEFTX'}]))))
+            out.append(('memory-unknown-listing-substates', n, lambda d, get=get: (
+                get(d).__setitem__('memory', 'NOSUCH'), get(d).__setitem__('states', [{'name': 'LEFTX'}]))))
         if kind == 'orthogonal':
+            out.append(('history-under-orthogonal-listing-substates', n, lambda d, get=get, m=kids(s)[0]['name']: get(d)['parallel states'].append(
+                {'name': 'HISTX', 'type': 'deep history', 'memory': m, 'states': [{'name': 'LEFTX'}]})))
             out.append(('history-under-orthogonal', n, lambda d, get=get, m=kids(s)[0]['name']: get(d)['parallel states'].append(
                 {'name': 'HISTX', 'type': 'shallow history', 'memory': m})))
             out.append(('deep-history-under-orthogonal', n, lambda d, get=get: get(d)['parallel states'].append(
@@ -121,6 +134,8 @@ def fault_list(doc):
         for k, c in enumerate(s.get('contract', [])):
             out.append(('unknown-contract-key', n + '/c%d' % k, lambda d, get=get, k=k: get(d)['contract'].__setitem__(k, {'never': 'False'})))
     out.append(('history-as-root', '-', lambda d: d['statechart'].__setitem__('root state', {'name': 'HROOT', 'type': 'shallow history'})))
+    out.append(('history-as-root-listing-substates', '-', lambda d: d['statechart'].__setitem__(
+        'root state', {'name': 'HROOT', 'type': 'shallow history', 'states': [{'name': 'LEFTX'}]})))
     out.append(('deep-history-as-root', '-', lambda d: d['statechart'].__setitem__('root state', {'name': 'HROOT', 'type': 'deep history'})))
     out.append(('unknown-statechart-key', '-', lambda d: d['statechart'].__setitem__('version', 2)))
     out.append(('unknown-top-key', '-', lambda d: d.__setitem__('extra', 1)))
